@@ -46,13 +46,17 @@ class CurrentTonality(BaseElement):
     def init(self):
         tab = 'CDEFGAB'
         notes = [0, 2, 4, 5, 7, 9, 11]
-        note = self.text.replace(':', '').replace('#', '').replace('b', '').replace('-', '')
+        # The first character is the note name (a lower case 'b' there is the note b, not a flat),
+        # the accidentals follow it
+        name = self.text.replace(':', '')
+        accidentals = name[1:]
+        note = name[:1] + accidentals.replace('#', '').replace('b', '').replace('-', '')
         tone = notes[tab.index(note.upper())]
         mode = 'major' if note.upper() == note else 'minor'
 
-        tone += self.text.count('#')
-        tone -= self.text.count('b')
-        tone -= self.text.count('-')
+        tone += accidentals.count('#')
+        tone -= accidentals.count('b')
+        tone -= accidentals.count('-')
 
         self.key = tone
         self.mode = mode
